@@ -188,8 +188,11 @@ impl<'a> MediaPlaylistBuilder<'a> {
                 let segment_duration = segment.duration.duration();
 
                 // round the duration if it is .5s
-                let rounded_segment_duration =
-                    Duration::from_secs(segment_duration.as_secs_f64().round() as u64);
+                let rounded_segment_duration = Duration::from_secs(
+                    segment_duration
+                        .as_secs()
+                        .saturating_add(u64::from(segment_duration.subsec_nanos() >= 500_000_000)),
+                );
 
                 let max_segment_duration = self
                     .allowable_excess_duration
